@@ -30,6 +30,8 @@ RECURSIVE Copy(_, _, _)
 Copy(out, off, n) == IF n = 0 THEN out ELSE Copy(Append(out, out[Len(out) - off + 1]), off, n - 1)
 
 \* state s = [ok, out, rep, lp, huf, tabs]; tabs = <<ll, of, ml>> with "none" | "predef" | "rle" | "fse"
+\* s.dict is the dictionary content in front of the output (empty without a dictionary): a match may start in it
+\* (C09; the window is never exceeded by the small frames enumerated here)
 RECURSIVE ExecSeqs(_, _, _, _)
 ExecSeqs(b, i, s, lits) ==
     IF ~s.ok THEN s
@@ -38,8 +40,9 @@ ExecSeqs(b, i, s, lits) ==
          IN IF s.lp + q.ll - 1 > Len(lits) THEN [s EXCEPT !.ok = FALSE]
             ELSE LET out1 == s.out \o SubSeq(lits, s.lp, s.lp + q.ll - 1)
                      r == RepStep(q.ofv, q.ll, s.rep)
-                 IN IF r[1] <= 0 \/ r[1] > Len(out1) THEN [s EXCEPT !.ok = FALSE]
-                    ELSE ExecSeqs(b, i + 1, [s EXCEPT !.out = Copy(out1, r[1], q.ml), !.rep = r[2], !.lp = s.lp + q.ll], lits)
+                 IN IF r[1] <= 0 \/ r[1] > Len(out1) + Len(s.dict) THEN [s EXCEPT !.ok = FALSE]
+                    ELSE LET whole == Copy(s.dict \o out1, r[1], q.ml)
+                         IN ExecSeqs(b, i + 1, [s EXCEPT !.out = SubSeq(whole, Len(s.dict) + 1, Len(whole)), !.rep = r[2], !.lp = s.lp + q.ll], lits)
 
 \* RLE literals repeat their first byte
 LitContent(b) == IF b.lit = "rle" /\ Len(b.lbytes) > 0 THEN [j \in 1..Len(b.lbytes) |-> b.lbytes[1]] ELSE b.lbytes
@@ -58,8 +61,11 @@ ExecBlock(b, s) ==
                         IN ExecSeqs(b, 1, s1, LitContent(b))
 RECURSIVE ExecBlocks(_, _, _)
 ExecBlocks(bs, i, s) == IF i > Len(bs) THEN s ELSE ExecBlocks(bs, i + 1, ExecBlock(bs[i], s))
-S0 == [ok |-> TRUE, out |-> <<>>, rep |-> <<1, 4, 8>>, lp |-> 1, huf |-> FALSE, tabs |-> <<"none", "none", "none">>]
+S0 == [ok |-> TRUE, out |-> <<>>, rep |-> <<1, 4, 8>>, lp |-> 1, huf |-> FALSE, tabs |-> <<"none", "none", "none">>, dict |-> <<>>]
 Meaning(f) == ExecBlocks(f.blocks, 1, S0)
+\* a frame that uses a dictionary starts from the dictionary's entropy tables, repeat offsets and content
+SD(dict, rep) == [ok |-> TRUE, out |-> <<>>, rep |-> rep, lp |-> 1, huf |-> TRUE, tabs |-> <<"fse", "fse", "fse">>, dict |-> dict]
+MeaningD(f, dict, rep) == ExecBlocks(f.blocks, 1, SD(dict, rep))
 
 \* ---- well-formedness the serialiser relies on ------------------------------------------------------
 \* RLE mode needs a single code per block; values are kept small so that the code is the value itself
@@ -128,13 +134,30 @@ FramesThorough ==
 
 Row(f) == LET m == Meaning(f) IN [frame |-> f, ok |-> m.ok, content |-> m.out, rep |-> m.rep]
 
+\* ---- C09: frames over a dictionary (content DictContent, repeat offsets DictRep; both given by the harness) -----------
+CONSTANTS DictContent, DictRep
+DL == Len(DictContent)
+\* first block: p literal bytes, then one match at distance `off` of length ml (reaching into the dictionary when off > p)
+DictBlock(p, off, ml, mode) == [k |-> "comp", lit |-> "raw", lbytes |-> LitBytes(p + 1), fmt |-> -1,
+                                seqs |-> << [ll |-> p, ofv |-> off + 3, ml |-> ml] >>, modes |-> <<mode, mode, mode>>]
+DictOffsets(p) == {1, 2, p, p + 1, p + 2, p + 3, p + DL - 1, p + DL, p + DL + 1} \ {0}
+FramesDict ==
+    \* every (literals before, offset, length) around the boundary between dictionary and output
+    {[hdr |-> H0, blocks |-> <<DictBlock(p, off, ml, m)>>] : p \in 0..5, off \in UNION {DictOffsets(q) : q \in 0..5}, ml \in {3, 4, 5, 9, 70}, m \in {"predef", "repeat"}} \cup
+    \* the dictionary's repeat offsets and tables as the starting state
+    {[hdr |-> H0, blocks |-> <<[Default EXCEPT !.seqs = q, !.modes = <<a, a, a>>, !.lit = l, !.lbytes = LitBytes(8)]>>] :
+        q \in SeqMenus, a \in {"repeat", "predef", "fse"}, l \in {"raw", "tree1", "tree4", "huf1"}} \cup
+    \* a second block after the dictionary was used
+    {[hdr |-> H0, blocks |-> <<DictBlock(2, 2 + DL, 6, "repeat"), b>>] : b \in {x \in Follow : Wf(x)}}
+RowD(f) == LET m == MeaningD(f, DictContent, DictRep) IN [frame |-> f, ok |-> m.ok, content |-> m.out, rep |-> m.rep]
+
 CONSTANT Tier
 VARIABLE x
 Init == x = 0
 Next == /\ x = 0 /\ x' = 1
         /\ Assert(FormatTheorems, "ZstdFormat theorems do not hold")
-        /\ LET fs == IF Tier = "quick" THEN FramesQuick ELSE FramesThorough
-               rows == SetToSeq({Row(f) : f \in fs})
+        /\ LET rows == IF Tier = "dict" THEN SetToSeq({RowD(f) : f \in FramesDict})
+                       ELSE SetToSeq({Row(f) : f \in (IF Tier = "quick" THEN FramesQuick ELSE FramesThorough)})
            IN ndJsonSerialize("zf_cases.ndjson", rows)
               /\ PrintT(<<"frames", Len(rows), "valid", Cardinality({i \in 1..Len(rows) : rows[i].ok})>>)
 Spec == Init /\ [][Next]_x
